@@ -164,6 +164,7 @@ class World(BaseWorld):
         if fn is None:
             raise HarnessError("unknown op %r" % op["op"])
         W.MON.fired.clear()
+        self.lib_raised = False
         try:
             out = fn(op)
         except W.load()._verif.InvariantViolation as err:   # only if raise_on_fire
@@ -239,8 +240,10 @@ class World(BaseWorld):
                 got = real.interchange(i, j, left=left)
             return "value", got
         except InterchangerError:
+            self.lib_raised = True
             return "InterchangerError", None
         except IndexError:
+            self.lib_raised = True
             return "IndexError", None
         except Interrupt:
             return "interrupted", None
@@ -494,10 +497,13 @@ class World(BaseWorld):
                 nf = real.normal_form(left=left)
             return "value", nf
         except NotImplementedError:
+            self.lib_raised = True
             return "NotImplementedError", None
         except Interrupt:
+            self.lib_raised = True
             return "interrupted", None
         except Budget:
+            self.lib_raised = True
             return "budget", None
         except Exception as err:
             return "exception:%s:%s" % (type(err).__name__, str(err)[:120]), None
